@@ -4,6 +4,10 @@ import json, subprocess
 
 # id -> (technique, level text, level note, design ref)
 CHECKS = {
+ "C14": ("metamorphic monitor with recorded call log: every surface form of a call intent must render and call exactly like the plain call; built-ins compared differentially with the Go functions they expose",
+         "Exploration: call intents over reflected fixed-arity and variadic funcs, value/pointer methods and a jet.Func, with arguments needing conversion, printed in parenthesised, prefix, piped and slot forms (slot at every position incl. the variadic tail); pipelines of 2-4 stages against nested plain calls; 26 directed error cases; differential runs of every documented built-in against the Go function.",
+         "Trusts the recorded call log (arguments as received by the Go callables). Non-integral numeric arguments to int parameters are not generated.",
+         "DESIGN.md 3/C14"),
  "C06": ("reference-resolver monitor: generated access paths into generated Go data graphs (unique leaf tokens) resolved by plain reflect following Go's rules and compared with what the template renders",
          "Exploration: random walks of 1-6 steps (field, bracket, index with literal/variable, key, slice, method call) over a graph covering every data shape the property names, rooted at a pointer, a value, the context, a struct type minted at run time (fresh field cache) or an interface container; half the paths get one step corrupted at a random depth; all index values in [-1,len+1] and all slice bound pairs in [-1,len+2]^2 are enumerated for every sequence field. Value -> rendered leaf token equals the stored one; nil -> empty/<nil>; error -> Execute returns an error without panicking.",
          "Trusts reflect (FieldByName depth rule, method sets, MapIndex, bounds) as the definition of the stored value. Shapes the statement leaves open are discarded and counted; indexing the result of a slice expression is not expressible in jet's grammar.",
